@@ -439,6 +439,12 @@ func (ex *Exec) evalModTarget(ctx *SpecCtx, c *Clause) []*modTarget {
 	case *ast.SelectorExpr:
 		base := ctx.eval(x.X)
 		bt := ex.env.resolve(base.T)
+		if _, isIface := bt.Underlying().(*types.Interface); isIface {
+			if gf := ex.ghostField(bt, x.Sel.Name); gf != nil {
+				gt := ctx.resolveGhostType(gf)
+				return []*modTarget{{kind: "field", base: bt, path: "." + x.Sel.Name, typ: gt, ref: ex.valTerm(base.V), src: c.Src}}
+			}
+		}
 		pt, ok := bt.Underlying().(*types.Pointer)
 		if !ok {
 			ctx.fail("modifies %s: base is not a pointer", c.Src)
@@ -1167,6 +1173,20 @@ func (ex *Exec) typeAssert(st *State, x *ssa.TypeAssert) *Val {
 	ex.check(st, "panic", ex.site("typeassert", x), ok, "type assertion to "+to.String()+" may fail", ex.pos(x))
 	st.assume(ok)
 	return res
+}
+
+// strData: storage identity of a string's bytes (never writable memory)
+func (ex *Exec) strData(s *Term) *Term {
+	ex.env.d.Func("strdata", SRef, ex.strSort())
+	ex.env.d.Func("is_strdata", SBool, SRef)
+	x := Sym("s!sd", ex.strSort())
+	app := App("strdata", SRef, x)
+	tag := ex.env.d.Func("emb_tag", SInt, SRef)
+	ex.addAxiom(Forall([]*Term{x}, And(Lt(app, IntLit(0)), App("is_strdata", SBool, app), Eq(App(tag.Name, SInt, app), IntLit(0))), []*Term{app}))
+	if s == nil {
+		return nil
+	}
+	return App("strdata", SRef, s)
 }
 
 // ---- errors ----
